@@ -77,7 +77,8 @@ theorem guardOk_of_dinv {P : Prog} {pre : List Mod} {order : List Nat} {s : St} 
     sequence of uses: the run does not fail and its trace satisfies `GuardOk`.
 
     Hypotheses (all decidable on a finite program, see `checkB`): Go's scoping (`scopedPkg`: a package
-    names `q.F` only if it imports `q`), every bound module is importable, the uses come from packages of
+    names `q.F` only if it imports `q`), `pyLoadModSyms` loads what the package calls (`loadsOkPkg`), every
+    bound module is importable, the uses come from packages of
     the program — and the two that llgo does NOT ensure: binding packages contain declarations only
     (`declOnlyPkg`), and some ordinary package needs the interpreter (`needPyInit`). -/
 theorem import_once_before_use (P : Prog) (imp : Mod → Bool) (pre : List Mod) (order : List Nat)
@@ -122,8 +123,8 @@ theorem var_after_import {pre : List Mod} {t : List Ev} (h : Safe pre t)
 /-- modules 0,1; packages: 0 and 1 both bind module 0, 2 binds module 1, 3 and 4 are users, 5 = main -/
 def exProg : Prog := ofList [
   { binds := some 0 }, { binds := some 0 }, { binds := some 1 },
-  { imports := [1, 2], initUses := [.call (0, 0)], uses := [.call (1, 0), .var (0, 1)] },
-  { imports := [0], uses := [.call (0, 0), .explicitImport 1] },
+  { imports := [1, 2], initUses := [.call (0, 0)], uses := [.call (1, 0), .var (0, 1)], loads := [(0, 0), (1, 0)] },
+  { imports := [0], uses := [.call (0, 0), .explicitImport 1], loads := [(0, 0)] },
   { imports := [3, 4, 2], initUses := [.explicitImport 0], uses := [.var (1, 7)], intrinsics := true }]
 
 example : checkB exProg (fun _ => true) [1, 2, 3, 0, 4, 5]
@@ -153,7 +154,8 @@ def GuardFullWithoutPyInit : Prop :=
 /-- the guard statement without the hypothesis that binding packages are declaration-only -/
 def GuardFullWithoutDeclOnly : Prop :=
   ∀ (P : Prog) (imp : Mod → Bool) (pre : List Mod) (order : List Nat) (calls : List (Nat × Use)),
-    Consistent P order → (∀ p ∈ order, scopedPkg P p = true ∧ boundImportable P imp p = true) →
+    Consistent P order →
+    (∀ p ∈ order, scopedPkg P p = true ∧ boundImportable P imp p = true ∧ loadsOkPkg P p = true) →
     needPyInit P order = true → callsOk P order calls = true →
     ∃ s, run P imp pre order calls = .ok s ∧ GuardOk P pre order s.trace
 
